@@ -8,6 +8,8 @@ package vigil
 import (
 	"sync"
 	"sync/atomic"
+
+	"github.com/hydraide/hydraide/app/verifhook"
 )
 
 // Vigil is an interface for managing the state of ongoing operations within the Hydra database.
@@ -62,6 +64,7 @@ func (v *vigil) BeginVigil() {
 
 func (v *vigil) CeaseVigil() {
 	atomic.AddInt64(&v.vigils, -1)
+	verifhook.Point("vigil.cease.gap", atomic.LoadInt64(&v.vigils))
 	v.cond.Broadcast()
 }
 
@@ -73,6 +76,7 @@ func (v *vigil) WaitForActiveVigilsClosed() {
 	v.cond.L.Lock()
 	defer v.cond.L.Unlock()
 	for v.HasActiveVigils() {
+		verifhook.Point("vigil.wait.check", atomic.LoadInt64(&v.vigils))
 		v.cond.Wait()
 	}
 }
